@@ -260,10 +260,20 @@ func cleanEnv(o RunOpt, outdir, scn string) []string {
 		"VERIF_SCENARIO=" + scn, "VERIF_OUTDIR=" + outdir,
 	}
 	env = append(env, ciEnv(o.CI, scn)...)
+	env = append(env, ambientEnv(scn)...)
 	if o.Update != "" {
 		env = append(env, "UPDATE_SNAPS="+o.Update)
 	}
 	return append(env, o.Env...)
+}
+
+// ambientEnv: variables of no concern to the library that a shell, a terminal or a CI image
+// exports; the flavour is a function of the scenario bytes.
+func ambientEnv(scn string) []string {
+	b, _ := os.ReadFile(scn)
+	fl := [][]string{nil, nil, {"COLUMNS=80", "LINES=24", "TERM=xterm-256color"}, {"COLUMNS=120", "TERM=dumb", "LC_ALL=tr_TR.UTF-8"},
+		{"COLUMNS=40", "TZ=Pacific/Kiritimati"}, {"COLUMNS=0", "TERM="}, {"COLUMNS=abc", "LINES=-1"}}
+	return fl[vkit.Hash("ambient-flavour", string(b))%uint64(len(fl))]
 }
 
 // ciEnv: the variables by which the child is (or is not) detected as a CI run; the
